@@ -841,7 +841,19 @@ pub fn run_c14(cfg: &Config) -> i32 {
 			let mut hist = Vec::new();
 			for _ in 0..len {
 				let shrink = rng.chance(1, 4);
-				let op = super::c06::random_op(&mut rng, &universe, m.entries.len(), shrink);
+				let op = if rng.chance(1, 5) {
+					// operations that write through a reference handed out by the object
+					let k = universe[rng.below(universe.len())].clone();
+					match rng.below(5) {
+						0 => crate::oracle::objmodel::Op::GetMut(k),
+						1 => crate::oracle::objmodel::Op::IterMut,
+						2 => crate::oracle::objmodel::Op::GetUniqueMut(k),
+						3 => crate::oracle::objmodel::Op::GetMutOrInsertWith(k),
+						_ => crate::oracle::objmodel::Op::GetOrInsertWith(k),
+					}
+				} else {
+					super::c06::random_op(&mut rng, &universe, m.entries.len(), shrink)
+				};
 				hist.push(op.clone());
 				done += 1;
 				rep.evaluations += 1;
